@@ -741,11 +741,12 @@ def apply_contract(eng, c, mod, fdef, args, kwargs, st, node):
             eng.check_store(sub, z3.Select(eng.list_arr(st, tgt[1]), q), target_key(eng, tgt), node, 'call:' + short)
         else:
             eng.check_store(st, tgt[1].t, target_key(eng, tgt), node, 'call:' + short)
-        havoc_target(eng, st, tgt)
     if c.allocates:
         na = z3.Int(fresh_name('alloc'))
         st.assume(na >= st.heap.alloc)
         st.heap.new_epoch(na)
+    for tgt in targets:
+        havoc_target(eng, st, tgt)
     result = fresh_of_kind(eng, st, c.returns, 'res_' + short) if c.returns is not None else NONE
     env2 = dict(env)
     env2['result'] = result
